@@ -35,6 +35,8 @@ AX = ('x', 'y', 'z')
 VEL = ('u', 'v', 'w')
 GHOST = 2
 EPS_DEGENERATE = 1e-5      # oracle keeps clear of the code's 1e-6 fall-back
+MIRROR_DEFECT_KEYS = {'C07:mirror-second-array', 'C07:mirror-after-periodic'}
+FAILED_KEYS = set()
 
 
 # --------------------------------------------------------------------------
@@ -137,6 +139,8 @@ def run_impl(case):
         rounds.append({'before': before, 'after': after,
                        'cell': float(dom.manager.cell_size),
                        'nreal': [int(pa.num_real_particles) for pa in pas]})
+        if runaway(after):
+            break           # reported by the oracle; further rounds only get bigger
         if r < len(case['moves']):
             apply_move(pas, case['moves'][r])
     defaults = []
@@ -145,6 +149,16 @@ def run_impl(case):
         d['extra'] = [pa.default_values[name] for name, _ in c]
         defaults.append(d)
     return rounds, cols, defaults
+
+
+def runaway(after):
+    """more ghosts than any configuration can need: 26 periodic images per real
+    particle, and 26 reflections of each of those 27 rows"""
+    for rows in after:
+        nreal = sum(1 for t, _ in rows if t != GHOST)
+        if len(rows) - nreal > 27 * 27 * max(nreal, 1):
+            return True
+    return False
 
 
 def apply_move(pas, move):
@@ -233,6 +247,10 @@ def F(v):
 def oracle_round(case, rnd, cols, defaults, R, rno):
     """returns list of (key, demand, observed)"""
     fails = []
+    if runaway(rnd['after']):
+        return [('C07:ghosts-accumulate',
+                 'round %d: at most 27*27-1 ghosts per real particle' % rno,
+                 'rows per array: %s' % [len(r) for r in rnd['after']])]
     per, mir, b = case['per'], case['mir'], case['box']
     lo = [F(b[0]), F(b[2]), F(b[4])]
     hi = [F(b[1]), F(b[3]), F(b[5])]
@@ -308,6 +326,7 @@ def oracle_round(case, rnd, cols, defaults, R, rno):
         dflt = [F(defaults[i][k]) for k in NAMED] + [F(v) for v in defaults[i]['extra']]
         keepcol = [cp is None or n in cp for n in names]
         exp = Counter()
+        exp_per = Counter()
         for t, vals in aft:
             opts = []
             for k in range(3):
@@ -336,11 +355,15 @@ def oracle_round(case, rnd, cols, defaults, R, rno):
                     if c[0] == 2:
                         row[3 + k] = -row[3 + k]
                 exp[tuple(row)] += 1
+                if all(c[0] != 2 for c in combo):
+                    exp_per[tuple(row)] += 1
         got = Counter(tuple(vals) for _, vals in gho)
         if exp != got:
             missing = list((exp - got).elements())
             extra = list((got - exp).elements())
-            if any(mir) and i >= 1:
+            if any(per) and (exp_per - got):
+                key = 'C07:periodic-ghosts'     # a purely periodic image is missing
+            elif any(mir) and i >= 1:
                 key = 'C07:mirror-second-array'
             elif any(mir) and any(per):
                 key = 'C07:mirror-after-periodic'
@@ -615,7 +638,7 @@ def check_cases(cases, R, sample_from=0):
         gc.collect()
         impls.append((rounds, cols, defaults))
         for rnd in rounds:
-            lines.append(model_line(c, rnd, cols, defaults))
+            lines.append('skip' if runaway(rnd['after']) else model_line(c, rnd, cols, defaults))
     out = H.run_model('C07', lines)
     if len(out) != len(lines):
         raise SystemExit('model driver answered %d lines for %d' % (len(out), len(lines)))
@@ -627,15 +650,26 @@ def check_cases(cases, R, sample_from=0):
             ln = lines[pos]
             pos += 1
             g = impl_answer(c, rnd)
-            if m != g:
+            fails = oracle_round(c, rnd, cols, defaults, R, rno)
+            for key, demand, observed in fails:
+                R.prop_fail(key, c, demand, observed)
+                FAILED_KEYS.add(key)
+            if ln == 'skip':
+                R.count('runaway-round-not-sent-to-model')
+            elif m != g:
                 pm, pg = parse_answer(m), parse_answer(g)
                 if pm is not None and pm == pg:
                     R.count('L2:row-order-differs-only')
+                elif any(c['mir']) and (len(c['arrays']) >= 2 or any(c['per'])) and \
+                        FAILED_KEYS & MIRROR_DEFECT_KEYS:
+                    # the model is the REPAIRED mirror code; on a tree where the
+                    # property oracle has already shown (and reported) one of the
+                    # two mirror defects, model-vs-code differences in the same
+                    # class of configurations add nothing
+                    R.count('disagreement-explained-by-reported-mirror-defect')
                 else:
                     R.disagree({'case': c, 'round': rno, 'line': ln[:4000]}, m[:4000], g[:4000],
                                'update round %d' % rno)
-            for key, demand, observed in oracle_round(c, rnd, cols, defaults, R, rno):
-                R.prop_fail(key, c, demand, observed)
             nghost += sum(1 for rows in rnd['after'] for t, _ in rows if t == GHOST)
             R.d['traces_validated_against_impl'] += 1
             for rows in rnd['after']:
